@@ -430,6 +430,10 @@ int main(int argc, char **argv)
 		seed_allvalues = 0;
 		seed_only = "level=0 default";
 		gs_family_isal(0, mine, &idx, seed_cb, NULL);
+		/* the longest dynamic headers a valid stream can carry (about 286 bytes, see streams.h): every 2-split and the byte-wise drivers stage them across calls */
+		seed_only = "long-header";
+		seed_maxblen = 400;
+		gs_family_shapes(mine, &idx, seed_cb, NULL);
 		seed_only = NULL;
 		seed_maxblen = 64;
 		seed_every = v_thorough ? 1 : 2;
